@@ -11,28 +11,33 @@ CONSTANTS Balls, Devs, Cap, Target, Shootable,   \* Shootable: devices a playfie
           Sourcing,    \* holding devices on a path to the playfield: their held balls are available to serve requests
           EntranceCounted,   \* devices that count balls by an entrance switch (a ball can roll over it and bounce back)
           Saved,       \* TRUE: a game with an unlimited ball save is running - every drained ball is owed back to the playfield
+          MaxAtt,      \* [Devs -> Nat] max_eject_attempts of each device (0: unlimited)
              \* Cap[d] capacity, Target[d] where d ejects to ("pf" = playfield)
           MaxOps
 VARIABLES loc,      \* [Balls -> <<"at", p, p, "ok">> | <<"transit", src, dst, kind>>]  (p a device or "pf"; kind "ok" | "back")
           fired,    \* devices whose eject coil was fired and whose ball has not reacted yet
           want,     \* balls the environment has asked to be on the playfield (requests minus drains), >= 0
           rel,      \* [Devs -> Nat] held balls that were released and have not left their device yet
+          fails,    \* [Devs -> Nat] consecutive ejects of the device that did not get a ball to its target in time
+          broken,   \* devices that have reported themselves broken (balldevice_<name>_broken)
           nops, act
-vars == <<loc, fired, want, rel, nops, act>>
+vars == <<loc, fired, want, rel, fails, broken, nops, act>>
 Home == "bd_trough"     \* the trough: where all balls start and drains end
 At(p) == <<"at", p, p, "ok">>
-Init == /\ loc = [b \in Balls |-> At(Home)] /\ fired = {} /\ want = 0 /\ rel = [d \in Devs |-> 0] /\ nops = 0 /\ act = [op |-> "init"]
+Init == /\ loc = [b \in Balls |-> At(Home)] /\ fired = {} /\ want = 0 /\ rel = [d \in Devs |-> 0] /\ fails = [d \in Devs |-> 0] /\ broken = {} /\ nops = 0 /\ act = [op |-> "init"]
 In(p) == {b \in Balls : loc[b] = At(p)}
 Transit(b) == loc[b][1] = "transit"
 To(p) == {b \in Balls : Transit(b) /\ ((loc[b][4] = "ok" /\ loc[b][3] = p) \/ (loc[b][4] = "back" /\ loc[b][2] = p))}
 Budget == nops < MaxOps /\ nops' = nops + 1
+\* the failure counter of a device is only kept where attempts are limited, and saturates at the limit
+IncF(d, n) == IF MaxAtt[d] > 0 /\ n < MaxAtt[d] THEN n + 1 ELSE n
 \* MPF fires the eject coil of d.  C04: never towards a device that has no room for the ball
 Coming(t) == Cardinality(To(t)) + Cardinality({d \in fired : Target[d] = t})
 RoomAt(t) == IF t = "pf" THEN TRUE ELSE Cap[t] - Cardinality(In(t)) - Coming(t) > 0
 \* (whether a held ball may be ejected without a release is not something C04 / C05 speak about: not judged)
 Fire(d) == /\ d \notin fired /\ RoomAt(Target[d])
            /\ fired' = fired \cup {d} /\ act' = [op |-> "fire", d |-> d]
-           /\ UNCHANGED <<loc, want, rel, nops>>
+           /\ UNCHANGED <<loc, want, rel, fails, broken, nops>>
 \* physics: the fired device's ball leaves towards the target (and may fall back), or does not move at all
 \* (a device that counts by an entrance switch cannot sense a failed eject - the ball never passes the entrance again -
 \*  so failed ejects of such devices are outside what any controller could get right and are not part of the world)
@@ -41,39 +46,45 @@ Fire(d) == /\ d \notin fired /\ RoomAt(Target[d])
 Leave(d, b, kind) == /\ d \in fired /\ loc[b] = At(d) /\ (d \in EntranceCounted => kind = "ok")
                      /\ loc' = [loc EXCEPT ![b] = <<"transit", d, Target[d], IF kind = "late" THEN "ok" ELSE kind>>]
                      /\ fired' = fired \ {d} /\ act' = [op |-> "leave", d |-> d, kind |-> kind]
-                     /\ rel' = [rel EXCEPT ![d] = IF kind # "back" /\ @ > 0 THEN @ - 1 ELSE @] /\ UNCHANGED <<want, nops>>
-NoLeave(d) == /\ d \in fired /\ d \notin EntranceCounted /\ fired' = fired \ {d} /\ act' = [op |-> "noleave", d |-> d] /\ UNCHANGED <<loc, want, rel, nops>>
+                     /\ rel' = [rel EXCEPT ![d] = IF kind # "back" /\ @ > 0 THEN @ - 1 ELSE @]
+                     \* (a late ball is a failed attempt for the device too: its eject timed out)
+                     /\ fails' = [fails EXCEPT ![d] = IF kind = "ok" THEN 0 ELSE IncF(d, @)] /\ UNCHANGED <<want, broken, nops>>
+NoLeave(d) == /\ d \in fired /\ d \notin EntranceCounted /\ fired' = fired \ {d} /\ act' = [op |-> "noleave", d |-> d]
+              /\ fails' = [fails EXCEPT ![d] = IncF(d, @)] /\ UNCHANGED <<loc, want, rel, broken, nops>>
 Arrive(b) == /\ Transit(b)
              /\ loc' = [loc EXCEPT ![b] = At(IF loc[b][4] = "ok" THEN loc[b][3] ELSE loc[b][2])]
              /\ act' = [op |-> "arrive", at |-> IF loc[b][4] = "ok" THEN loc[b][3] ELSE loc[b][2]]
-             /\ UNCHANGED <<fired, want, rel, nops>>
+             /\ UNCHANGED <<fired, want, rel, fails, broken, nops>>
+\* a device that has used up its attempts reports itself broken (C05: rather than hanging silently)
+Broken(d) == /\ MaxAtt[d] > 0 /\ fails[d] >= MaxAtt[d] /\ d \notin broken /\ broken' = broken \cup {d}
+             /\ act' = [op |-> "broken", d |-> d] /\ UNCHANGED <<loc, fired, want, rel, fails, nops>>
 \* the player: a ball on the playfield drains into the trough / is shot into the lock
 Drain(b) == /\ Budget /\ loc[b] = At("pf") /\ loc' = [loc EXCEPT ![b] = <<"transit", "pf", Home, "ok">>]
-            /\ want' = (IF Saved THEN want ELSE IF want > 0 THEN want - 1 ELSE 0) /\ act' = [op |-> "drain"] /\ UNCHANGED <<fired, rel>>
+            /\ want' = (IF Saved THEN want ELSE IF want > 0 THEN want - 1 ELSE 0) /\ act' = [op |-> "drain"] /\ UNCHANGED <<fired, rel, fails, broken>>
 Shot(b, d) == /\ Budget /\ loc[b] = At("pf") /\ d \in Shootable
               /\ Cap[d] - Cardinality(In(d)) - Coming(d) > 0
               /\ loc' = [loc EXCEPT ![b] = <<"transit", "pf", d, "ok">>] /\ act' = [op |-> "shot", d |-> d]
               \* a ball shot into a hold stays there: one ball less that belongs on the playfield
-              /\ want' = (IF d \in Holding /\ want > 0 THEN want - 1 ELSE want) /\ UNCHANGED <<fired, rel>>
+              /\ want' = (IF d \in Holding /\ want > 0 THEN want - 1 ELSE want) /\ UNCHANGED <<fired, rel, fails, broken>>
 \* a playfield ball rolls over the entrance switch of a full entrance-counted device and bounces back
 Bounce(b, d) == /\ Budget /\ loc[b] = At("pf") /\ d \in Shootable /\ d \in EntranceCounted
                 /\ Cap[d] - Cardinality(In(d)) - Coming(d) = 0 /\ d \notin fired /\ rel[d] = 0
-                /\ act' = [op |-> "bounce", d |-> d] /\ UNCHANGED <<loc, fired, want, rel>>
+                /\ act' = [op |-> "bounce", d |-> d] /\ UNCHANGED <<loc, fired, want, rel, fails, broken>>
 \* the held balls of d are released (release_all event): they belong on the playfield again
 Release(d) == /\ Budget /\ d \in Holding /\ d \notin fired /\ rel[d] = 0 /\ Coming(d) = 0 /\ In(d) # {}
               /\ rel' = [rel EXCEPT ![d] = Cardinality(In(d))] /\ want' = want + Cardinality(In(d))
-              /\ act' = [op |-> "release", d |-> d] /\ UNCHANGED <<loc, fired>>
+              /\ act' = [op |-> "release", d |-> d] /\ UNCHANGED <<loc, fired, fails, broken>>
 \* a ball leaves a device by itself (bounces out, is lost from a lock) and ends up loose on the playfield
 Escape(b, d) == /\ Budget /\ d \in Escapable /\ loc[b] = At(d) /\ d \notin fired
                 /\ loc' = [loc EXCEPT ![b] = <<"transit", d, "pf", "ok">>] /\ act' = [op |-> "escape", d |-> d]
                 \* a ball lost from the trough is one more ball that belongs on the playfield now; a ball lost from a
                 \* device that was going to eject it to the playfield anyway changes nothing
-                /\ want' = (IF d = Home THEN want + 1 ELSE want) /\ UNCHANGED <<fired, rel>>
+                /\ want' = (IF d = Home THEN want + 1 ELSE want) /\ UNCHANGED <<fired, rel, fails, broken>>
 \* a ball is requested for the playfield (ball start, ball save, multiball add, manual request)
-Request == /\ Budget /\ want' = want + 1 /\ act' = [op |-> "request"] /\ UNCHANGED <<loc, fired, rel>>
+Request == /\ Budget /\ want' = want + 1 /\ act' = [op |-> "request"] /\ UNCHANGED <<loc, fired, rel, fails, broken>>
 Next == \/ \E d \in Devs : Fire(d) \/ NoLeave(d) \/ \E b \in Balls, k \in {"ok", "back", "late"} : Leave(d, b, k)
         \/ \E b \in Balls : Arrive(b) \/ Drain(b) \/ \E d \in Devs : Shot(b, d) \/ Escape(b, d) \/ Bounce(b, d)
-        \/ \E d \in Devs : Release(d)
+        \/ \E d \in Devs : Release(d) \/ Broken(d)
         \/ Request
 Spec == Init /\ [][Next]_vars
 \* ---- statements of C04 / C05 over observed MPF counts ------------------------------------------------------
